@@ -65,6 +65,38 @@ def follow_terminals(env) -> Dict[str, Set[str]]:
     return out
 
 
+def check_token_left_context(ctx: Ctx, env, rule: str = "R3.token-not-excluded-by-left-context"):
+    """A token rule that starts with a look-behind cannot match directly after a character the look-behind excludes. Wherever the
+    grammar lets that token follow another token (or literal) whose last character is excluded - with nothing in between - the filter
+    is no longer tokenised the way the grammar expects."""
+    g = env.grammar
+    alpha = rx.Alphabet.for_patterns([r.pattern for r in g.rules], g.reflags, full=False, extra_chars="".join(g.literals))
+    rules = {r.name: rx.compile_rule(r.pattern, g.reflags, alpha) for r in g.rules}
+    fol = follow_terminals(env)
+    n = 0
+    gm = grammar_module(env)
+    for r in g.rules:
+        cr = rules[r.name]
+        if cr.behind is None:
+            continue
+        n += 1
+        for prev, nxt in fol.items():
+            if r.name not in nxt:
+                continue
+            if prev in rules:
+                last = rx.last_symbols(rules[prev].dfa)
+            elif prev in g.literals and alpha.class_of.get(prev) is not None:
+                last = {alpha.class_of[prev]}
+            else:
+                continue
+            bad = sorted(c for c in last if c not in cr.behind)
+            ctx.check(not bad, rule, f"{r.name}|after {prev}",
+                      f"the {r.name} rule starts with a look-behind that forbids {[alpha.rep[c] for c in bad][:4]} before it, but the grammar allows {r.name} directly "
+                      f"after {prev}, which can end in such a character: there the text is not recognised as {r.name}", gm.loc(r.func) if r.func else gm.rel,
+                      f"( {'not a' if r.name == 'NOT' else r.name.lower()} ... written without a blank after `{prev}`")
+    return n
+
+
 def _case_map_keeps_length(env, r) -> bool:
     """Slicing at fixed positions and upper-casing commute on the words of a rule iff no character the rule can match changes
     length under str.upper() (as 'ß' -> 'SS' would): decided on the characters of the rule's live DFA transitions."""
@@ -249,6 +281,8 @@ def run(ctx: Ctx, env):
         ctx.check(issue is None, "R3.alternatives-prefix-safe", r.name, f"an earlier alternative at the end of the rule matches a proper prefix of a later one "
                   f"({issue}): Python takes the first alternative that matches, i.e. the shorter text", gm.loc(r.func) if r.func else gm.rel,
                   f"x eq {issue[1]}" if issue else None)
+
+    check_token_left_context(ctx, env)
 
     # ---- R4 actions ------------------------------------------------------------------------------------------------------
     check_token_actions(ctx, env)
